@@ -72,6 +72,26 @@ func (x *psExec) do(g string, op POp) {
 		r.Call(g, "Sub", "auto", false, "dead", false)
 		p := safeCall(func() { x.ps.Subscribe() })
 		r.Ret(g, "Sub", "r", cls(nil, p), "msg", p)
+	case "subn", "unsubn":
+		// Add(+k) / Add(-k): k subscriptions made / withdrawn by one call; in the trace they are k subscribers g#1..g#k
+		// whose Subscribe / Unsubscribe calls span the same interval (they never receive)
+		k := op.N
+		opn, delta := "Sub", k
+		if op.K == "unsubn" {
+			opn, delta = "Unsub", -k
+		}
+		ctl.Gate("drv.call")
+		for i := 1; i <= k; i++ {
+			if opn == "Sub" {
+				r.Call(fmt.Sprintf("%s#%d", g, i), opn, "auto", false, "dead", false)
+			} else {
+				r.Call(fmt.Sprintf("%s#%d", g, i), opn)
+			}
+		}
+		p := safeCall(func() { x.ps.Add(delta) })
+		for i := 1; i <= k; i++ {
+			r.Ret(fmt.Sprintf("%s#%d", g, i), opn, "r", cls(nil, p), "msg", p)
+		}
 	case "recv":
 		// receive one value then Wait (the contract), unless the harness tells subscribers to leave
 		ctl.Gate("drv.call")
@@ -214,6 +234,11 @@ func genPSScenario(rng *rand.Rand, profile, mode string) any {
 			}
 			ops = append(ops, POp{K: "nop", N: rng.Intn(14)}, POp{K: "unsub"})
 			sc.Drivers, sc.Names = append(sc.Drivers, ops), append(sc.Names, fmt.Sprintf("U%d", i+1))
+		}
+		if rng.Intn(2) == 0 {
+			// several subscriptions made and withdrawn by single Add(+k) / Add(-k) calls
+			k := 2 + rng.Intn(2)
+			sc.Drivers, sc.Names = append(sc.Drivers, []POp{{K: "nop", N: rng.Intn(3)}, {K: "subn", N: k}, {K: "nop", N: rng.Intn(14)}, {K: "unsubn", N: k}}), append(sc.Names, "M1")
 		}
 		if rng.Intn(3) == 0 {
 			// a SubscribeContext arriving during those Sends with a context that is being cancelled
